@@ -18,6 +18,7 @@ OUT = os.path.join(os.path.dirname(os.path.abspath(__file__)), "..", "coq", "gen
 KAD = "src/protocol/libp2p/kademlia/"
 NOISE = "src/crypto/noise/mod.rs"
 ADDR = "src/transport/manager/address.rs"
+BITSWAP = "src/protocol/libp2p/bitswap/"
 
 
 def const(name, typ=r"[\w:<>]+"):
@@ -63,6 +64,10 @@ CONSTS = [
     ("SCORE_CONNECTION_FAILURE_NEG", ADDR, r"const\s+CONNECTION_FAILURE\s*:\s*i32\s*=\s*-\s*([^;]+);"),
     ("SCORE_ADDRESS_FAILURE_NEG", ADDR, r"const\s+ADDRESS_FAILURE\s*:\s*i32\s*=\s*(i32::MIN)\s*;"),
     ("SCORE_PUBLIC_ADDRESS_BONUS", ADDR, const("PUBLIC_ADDRESS_BONUS")),
+    # C20
+    ("BITSWAP_MAX_MESSAGE_SIZE", BITSWAP + "config.rs", const("MAX_MESSAGE_SIZE")),
+    ("BITSWAP_MAX_BATCH_SIZE", BITSWAP + "config.rs", const("MAX_BATCH_SIZE")),
+    ("BITSWAP_EMPTY_MESSAGE_SIZE", BITSWAP + "mod.rs", const("EMPTY_MESSAGE_SIZE")),
 ]
 
 
